@@ -28,6 +28,7 @@ fn replay(file: &str) -> ! {
         "withdrawals" => replay_with(&c14::scenario_actor(tier), &v),
         "power-only" => replay_with(&c02::poweronly::PowerOnly { miners: 5 }, &v),
         "partition-component" => replay_with(&c04::component::scenario(tier), &v),
+        "c03+withdrawals" => replay_with(&c03::scenario_vesting(tier), &v),
         "multisig" => replay_with(&c12::scenario(tier).0, &v),
         s if s.starts_with("c01") => c01::replay(&v),
         s if s.starts_with("c09") => c09::replay(&v),
